@@ -11,8 +11,10 @@ HERE = os.path.dirname(os.path.abspath(__file__))
 sys.path.insert(0, HERE)
 import curvelib as cl
 
-OPS = {'sw_sub': 1, 'sw_clear': 2, 'sw_cofinv': 3, 'sw_sample': 4, 'sw_params': 5,
-       'te_sub': 11, 'te_clear': 12, 'te_cofinv': 13, 'te_sample': 14, 'te_params': 15}
+OPS = {'sw_sub': 1, 'sw_clear': 2, 'sw_cofinv': 3, 'sw_sample': 4, 'sw_params': 5, 'sw_check': 6, 'sw_rand': 7,
+       'te_sub': 11, 'te_clear': 12, 'te_cofinv': 13, 'te_sample': 14, 'te_params': 15, 'te_check': 16, 'te_rand': 17}
+# *_rand exists in the Rust harness only (Affine::rand / Projective::rand with a seeded StdRng); its
+# outputs are fed to *_check (is_on_curve, r * P = O) by extra() below.
 PARAMS = HERE + '/params.json'
 
 # the fixed integers the optimised clearing maps must multiply by (the *specification*):
@@ -182,7 +184,7 @@ def pt(c, P):
     return list(P[0]) + list(P[1])
 
 
-def small_primes(n, bound=20000):
+def small_primes(n, bound=300000):
     out, d = [], 2
     while d < bound and d * d <= n:
         if n % d == 0:
@@ -280,15 +282,44 @@ def gen_big(c, rng, n):
 
 def gen_toy(c, rng, tier):
     """exhaustive over all points (and all x / y for the sampling op) of a toy curve"""
+    F = c.F
+    if getattr(c, 'complete', True) is False:
+        # incomplete twisted Edwards curve: only the sampling op, and only where the cofactor
+        # multiplication meets no exceptional pair (outside that the unified formulas are not the
+        # group law: not in the property's domain)
+        # BRANCH (get_xs_from_y_unchecked): denominator a - d y^2 = 0 -> None (y = +-2 here)
+        for v in F.all():
+            P = c.lift_y(v)
+            if P is not None and (c.mul(c.h, P) is None or c.mul(c.h, c.neg(P)) is None):
+                continue
+            for g in (0, 1):
+                op, a, cl_ = sample_case(c, v, g, rng)
+                yield op, a, cl_ + ('/den0' if F.sub(c.a, F.mul(c.d, F.sq(v))) == F.zero else '/incomplete')
+        yield c.kind + '_params', head(c), 'params'
+        return
     for P in c.pts:
         yield from point_ops(c, P, 'toy/' + classify(c, P))
-    F = c.F
     for v in F.all():
         for g in (0, 1):
             yield sample_case(c, v, g, rng)
     yield c.kind + '_params', head(c), 'params'
 
 
+# Branches of the anchored Rust code and the classes that execute them:
+#  BRANCH CurveConfig::cofactor_is_one true            -> toy SW 1, 2 (h = 1), secp256k1: every class (test answers true without a loop)
+#  BRANCH cofactor_is_one false, low limb 1, high != 0 -> bls12_377 G2 (COFACTOR = [1, 0x4522.., ...]): all classes
+#  BRANCH SW default test, r * P loop                  -> every curve with h > 1 and no override (toy 3..12, bls12_377, mnt4/6, bw6, jubjub_sw, ...)
+#  BRANCH TE default test (never short-circuited)      -> all TE curves
+#  BRANCH bls12_381 G1 early-out `xP == P && !inf`      -> small_order/3, /11, /10177 (orders dividing x - 1), cofactor_part
+#  BRANCH bls12_381 G1 sigma comparison (GLV mul)      -> identity (skips the early-out through `!p.infinity`), subgroup, arbitrary
+#  BRANCH bls12_381 G2 psi test, X_IS_NEGATIVE negate  -> cfg 102 and 104 (test-curves copy: BigInt::new([X[0],0,0,0]))
+#  BRANCH bn254 G1 `true`                              -> cfg 107 (every point of E(F_q) is a subgroup point: h = 1)
+#  BRANCH bn254 G2 [6x^2]P == psi(P)                    -> cfg 108, outside / small-order / subgroup points
+#  BRANCH clear_cofactor default / h_eff (3 variants)  -> *_clear on kinds 0 / 1, 2, 3
+#  BRANCH Budroni-Pintore with / without negations     -> cfg 102, 104 (x < 0) / 106 (x > 0); identity input: all terms O
+#  BRANCH get_ys_from_x_unchecked None / Some, y < -y  -> sample/none, sample/some with greatest = 0 / 1 (toy: every x)
+#  BRANCH get_xs_from_y_unchecked denominator == 0     -> toy TE 7 (incomplete), class sample/none/den0
+#  BRANCH Distribution::sample (rejection loop + cofactor multiplication) -> extra(): *_rand then *_check
 def gen(rng, tier):
     for c in toy():
         yield from gen_toy(c, rng, tier)
@@ -296,6 +327,45 @@ def gen(rng, tier):
     for c in shipped():
         yield c.kind + '_params', head(c), 'params'
         yield from gen_big(c, rng, n)
+
+
+def extra(ctx, cases, lines, impl_out, model_out):
+    """random sampling only produces subgroup points: run `Affine::rand` / `Projective::rand` (the
+    real rejection loop + cofactor multiplication) in the harness, then decide membership of every
+    returned point with the model (curve equation and r * P = O by the proved double-and-add)"""
+    import vcheck, subprocess
+    if impl_out is None:
+        return []
+    model_bin = '%s/bin/model_C12' % ((ctx['BUILD'] + '/alt') if ctx.get('ALT') else ctx['BUILD'])
+    if not os.path.exists(model_bin):
+        return []
+    thorough = ctx['tier'] == 'thorough'
+    cfgs = [c for c in toy() + shipped() if getattr(c, 'complete', True) is not False]
+    rl = []
+    for c in cfgs:
+        cnt = (40 if thorough else 8) if c.cid < 100 else (10 if thorough else 2)
+        rl.append(vcheck.case_line(OPS, c.kind + '_rand', head(c) + [[ctx['seed'] % (1 << 32) + c.cid, cnt]]))
+    ro = vcheck.run_sharded(ctx['hbin_path'], rl, 16, timeout=1200)
+    chk, meta = [], []
+    bad = []
+    for c, l, o in zip(cfgs, rl, ro):
+        parts = (o or '').split(' ')
+        if parts[0] != '0':
+            bad.append(({'case': {'op': c.kind + '_rand', 'args': [], 'class': 'rand'}, 'line': l[:200], 'impl': o, 'model': None,
+                         'why': 'rand failed'}, 'rand'))
+            continue
+        for t in parts[1:]:
+            a = head(c) + [vcheck.parse_arg(t)]
+            chk.append(vcheck.case_line(OPS, c.kind + '_check', a))
+            meta.append({'op': c.kind + '_check', 'args': a, 'class': 'rand_output'})
+    mo = vcheck.run_sharded(['sh', '-c', 'ulimit -s unlimited 2>/dev/null; exec %s' % model_bin], chk, 16, timeout=1200)
+    io = vcheck.run_sharded(ctx['hbin_path'], chk, 16, timeout=1200)
+    for m, l, a, b_ in zip(meta, chk, mo, io):
+        if a != '0 1 1' or b_ != '0 1 1':
+            bad.append(({'case': m, 'line': l, 'impl': b_, 'model': a,
+                         'why': 'a point returned by rand() is not a subgroup point of the curve'}, 'rand'))
+    ctx['notes'].append('extra: %d points returned by Affine::rand / Projective::rand checked (on curve, r P = O)' % len(chk))
+    return bad
 
 
 def is_toy(case):
@@ -310,7 +380,7 @@ def nontrivial(case, out):
     return not case['op'].endswith('_params')
 
 
-RULE = ('every point of 12 toy SW / 6 toy TE curves (cofactors 1,2,3,4,6,8,9,12) and every x / y coordinate for the sampling op; '
+RULE = ('every point of 12 toy SW / 6 complete toy TE curves (cofactors 1,2,3,4,6,8,9,12) and every x / y coordinate for the sampling op (+ 1 incomplete TE curve, sampling only); '
         'on the shipped curves: identity, generator, points from arbitrary coordinates (outside the subgroup), small-order points '
         '(h r / l) P for the small primes l | h, r P, subgroup + small-order, subgroup points; non-trivial = every case except the '
         '*_params ops; distinct = distinct case lines')
